@@ -103,9 +103,11 @@ fn check_fit(case: &FitCase, ctx: &mut Ctx) -> Result<(), Fail> {
     verif_hooks::set_schedule_seed(Some(case.seed));
     let r = catch(|| {
         let params = if n % 2 == 0 { KMeansParameters::default().with_k(k).with_max_iter(case.max_iter) } else { KMeansParameters::default().with_max_iter(case.max_iter).with_k(k) };
-        let m = KMeans::fit(&x, params).map_err(|e| format!("fit: {}", e))?;
+        // inherent entry points, or (every other case) the generic traits of smartcore::api
+        let via_trait = (n / 2) % 2 == 1;
+        let m: KMeans<f64> = if via_trait { unsup_fit(&x, params) } else { KMeans::fit(&x, params) }.map_err(|e| format!("fit: {}", e))?;
         let v = serde_json::to_value(&m).map_err(|e| format!("serialise: {}", e))?;
-        let p: Vec<f64> = m.predict(&q).map_err(|e| format!("predict: {}", e))?;
+        let p: Vec<f64> = if via_trait { tr_predict(&m, &q) } else { m.predict(&q) }.map_err(|e| format!("predict: {}", e))?;
         Ok::<_, String>((v, p))
     });
     verif_hooks::set_schedule_seed(None);
